@@ -202,6 +202,9 @@ def run(ck):
     ck.rule("C06-O7", "retention sees every rotated file: the name writer and findRotatedFiles() agree on fields, order, separators, the split of the active name, and the digits of the date (locale-independent)")
     from rules.c09 import name_scheme
     name_scheme(ck, S, "C06-O7")
+    ck.rule("C06-O8", "the dates that name rotated files come from one time base (message time, file time and wall clock all local, or all UTC)")
+    from rules.rfs import time_base_agreement
+    time_base_agreement(ck, S, "C06-O8")
 
 
 def pattern_templates(fn, ck=None):
